@@ -71,6 +71,17 @@ def kind_exclusion_holds(facts, excl):
         for st in b["s"]:
             if st[0] == "=" and st[2][0] == "agg" and st[2][1].get("def", "").endswith(excl["refusal"][0]) and st[2][1].get("vname") == excl["refusal"][1]:
                 refusal.add(bi)
+    # ... or calls a local helper (closure of g, or a function of the crate) that builds it
+    builders = set()
+    for f in facts.fns.values():
+        if f.crate != excl["crate"] or f is g:
+            continue
+        if any(st[0] == "=" and st[2][0] == "agg" and st[2][1].get("def", "").endswith(excl["refusal"][0]) and st[2][1].get("vname") == excl["refusal"][1]
+               for b in f.blocks if not b.get("cleanup") for st in b["s"]) and len(f.blocks) <= 12:
+            builders.add(f.id)
+    for bi, t in g.calls():
+        if (t["f"].get("res") or t["f"].get("def")) in builders:
+            refusal.add(bi)
     if not refusal:
         return False, "%s no longer builds %s::%s" % (g.name, excl["refusal"][0], excl["refusal"][1])
     for pat in excl["guards"]:
